@@ -957,9 +957,27 @@ def gen_c10(rng, t):
         a.add("FCLEAR")
         npk = 0
         for _ in range(rng.range(1, 8)):
-            r = rng.below(12)
+            r = rng.below(14)
             lab = rng.choice([L6A, L6A, L3A, "B", "R"])
             pl = rng.range(0, 50)
+            if r >= 12:
+                # a hand-built train whose end fragment (or an intermediate one) is corrupted: rejected packets inside a frame
+                rp = rng.bytes(rng.range(2, 30))
+                sizes = [rng.range(0, len(rp) - 1)]
+                if len(rp) - sizes[0] > 1 and rng.chance(0.5):
+                    sizes.append(rng.range(1, len(rp) - sizes[0] - 1))
+                train = fragment(rp, rng.below(3), 0x0800, rng.choice([L6A, L3A, "B"]), sizes)
+                # corrupt payload / trailer bytes only (never header fields: a first fragment announcing less than it carries
+                # is not something the encapsulator produces and is outside C10's list of rejections)
+                k = len(train) - 1 if (rng.chance(0.7) or len(train) < 3) else rng.range(1, len(train) - 1)
+                bad_p = bytearray(train[k])
+                bad_p[rng.range(3, len(bad_p) - 1)] ^= 1 << rng.below(8)
+                train[k] = bytes(bad_p)
+                for p in train:
+                    a.add("FRAW %s" % hx(p))
+                    b.add("DECAP %s" % hx(p))
+                    npk += 1
+                continue
             if r < 5:
                 op = "ENCAP %s %d 2048 %s %d 1" % (pdu_tok(rng, pl), rng.below(3), lab, rng.choice([80, pl + 4, rng.range(8, 30)]))
             elif r < 8:
@@ -997,7 +1015,7 @@ def orc_c10_pairs(byname, impl):
         b = byname[a.meta["twin"]]
         if not oa or not ob:
             continue
-        alone = [ob[i] for i, op in enumerate(b.ops) if op.startswith("DECAPN") and ob[i] != "nopkt"]
+        alone = [ob[i] for i, op in enumerate(b.ops) if op.startswith(("DECAPN", "DECAP ")) and ob[i] != "nopkt"]
         pushed = [oa[i] for i, op in enumerate(a.ops) if op == "FPUSH" and oa[i] != "nopkt"]
         walk = oa[-1]
         if walk.startswith("PANIC") or "PANIC" in walk:
